@@ -793,10 +793,16 @@ class C11(E2ECheck):
         'ntransfers': (1, 4), 'limits': 'ones', 'execs': ['thr'],
         'subs': {'max': 1, 'size': True}, 'max_thr': 10, 'max_chunk': 6,
         'stream_scripts': True, 'ends': ['shutdown'],
+        # failing and cancelled transfers too: the bounds hold at any time,
+        # also while a failed transfer is still winding down
+        'fault_sites': ['s3.upload_part', 's3.upload_part', 's3.get_object',
+                        'src.read', 's3.complete_multipart_upload'],
+        'max_faults': 1, 'cancels': 1,
     }
     rule = ('cases = stream uploads (seekable / non-seekable) and '
             'non-seekable ranged downloads sharing a manager, in-memory '
-            'limits 1-3, PCT schedules; oracle at every step: bytes read '
+            'limits 1-3, 0-1 planted fault, 0-1 cancel, PCT schedules; oracle at every step: in-memory '
+            'part tasks queued or running <= U (whatever the outcome), bytes read '
             'from user streams awaiting a finished part <= (U+S)*max(chunk,'
             'threshold), download window <= D per download and in sum, '
             'pending writes <= max_io_queue_size x io_chunksize; '
